@@ -62,12 +62,13 @@ structure Params (F : Type) where
   tickDist : F
   len : F
   spanCount : Int
-  deriving Repr
+  deriving DecidableEq, Repr
 
 /-- `SliderEventsIter`: parameters, the borrowed buffer (back first, see the header), the state. -/
 structure Iter (F : Type) extends Params F where
   ticks : List (SliderEvent F)
   state : State
+  deriving DecidableEq
 
 variable {F : Type} [Scalar F]
 
